@@ -440,3 +440,95 @@ def run(ctx, index, graph, effects, wm, reach):
             ctx.ob("C20.prov", f, node, ok, msg)
     ctx.count("write_paths_traced", n)
     ctx.floor("write paths traced", n, 8)
+    _absolute_components(ctx, index, prov, reach)
+
+
+ABS_CALLS = frozenset(
+    (
+        "os.path.realpath os.path.abspath inspect.getfile inspect.getsourcefile "
+        "cdd.shared.pure_utils.find_module_filepath cdd.shared.pkg_utils.relative_filename "
+        "os.path.expanduser os.getcwd"
+    ).split()
+)
+REL_CALLS = frozenset("os.path.basename os.path.relpath".split())
+ABS_PARAM_NAMES = frozenset("module_root_dir module_filepath module_origin".split())
+
+
+def _may_be_absolute(index, f, e, depth=0):
+    """may path expression e be an absolute path (so that os.path.join would discard what precedes it)?"""
+    from ..defuse import local_defs
+
+    if depth > 5 or e is None:
+        return None
+    if isinstance(e, ast.Call):
+        callee = index.callee(f.mod, e, f)
+        if callee in REL_CALLS:
+            return None
+        if callee in ABS_CALLS:
+            return "{}(...) may return an absolute path".format(callee.rpartition(".")[2])
+        if callee == "os.path.join" and e.args:
+            return _may_be_absolute(index, f, e.args[0], depth + 1)
+        if callee == "os.path.dirname" and e.args:
+            return _may_be_absolute(index, f, e.args[0], depth + 1)
+        return None
+    if isinstance(e, ast.Subscript):
+        if isinstance(e.slice, ast.Slice) and e.slice.lower is not None:
+            return None  # prefix sliced off
+        return None
+    if isinstance(e, ast.Attribute):
+        if e.attr == "__file__":
+            return "__file__ is an absolute path"
+        return None
+    if isinstance(e, ast.IfExp):
+        return _may_be_absolute(index, f, e.body, depth + 1) or _may_be_absolute(index, f, e.orelse, depth + 1)
+    if isinstance(e, ast.Name):
+        g = f
+        while g is not None:
+            if e.id in g.params and e.id in ABS_PARAM_NAMES and not local_defs(g).get(e.id):
+                return "parameter {} is the absolute location of the analysed source".format(e.id)
+            defs = local_defs(g).get(e.id)
+            if defs:
+                for d in defs:
+                    r = _may_be_absolute(index, g, d, depth + 1)
+                    if r:
+                        return r
+                return None
+            g = g.outer
+    return None
+
+
+def _absolute_components(ctx, index, prov, reach):
+    """no later component of a join rooted at the output directory may be an absolute path"""
+    n = 0
+    for q in reach:
+        f = index.funcs[q]
+        for node in iter_own(f.node):
+            if not (isinstance(node, ast.Call) and index.callee(f.mod, node, f) == "os.path.join" and len(node.args) > 1):
+                continue
+            first = node.args[0]
+            if isinstance(first, ast.Starred):
+                continue
+            d = prov.eval(f, first)
+            if d is None or isinstance(d, Joiner):
+                continue
+            n += 1
+            bad = None
+            for comp in node.args[1:]:
+                c = comp.value if isinstance(comp, ast.Starred) else comp
+                why = _may_be_absolute(index, f, c)
+                if why:
+                    bad = (comp, why)
+                    break
+            ctx.ob(
+                "C20.prov",
+                f,
+                node,
+                bad is None,
+                ""
+                if bad is None
+                else "component `{}` of a path joined below the output directory may be absolute ({}): "
+                "os.path.join then discards the output directory and the write lands elsewhere".format(
+                    short(bad[0], 50), bad[1]
+                ),
+            )
+    ctx.count("joins_below_output_directory", n)
